@@ -218,7 +218,7 @@ def dictionaries_with_an_unset_entry_are_stored_faithfully_or_rejected(n: int, p
     try:
         data, attrs = database.packSpecialData(np.array(values), "p")
         stored_ok = True
-    except (TypeError, ValueError):
+    except Exception:
         stored_ok = False
     faithful = True
     if stored_ok:
